@@ -17,8 +17,12 @@ RULE = ("a case = one scenario: a handle type (Array, Map, HashMap, Shared<T>, S
         "Atomic<int>) and 2-3 thread programs of up to 4 copy/assign/drop or increment/decrement operations; the real library is "
         "run under a deterministic scheduler at its ASL_VERIF hook points and ALL interleavings are enumerated (bounded by a "
         "schedule budget in quick), the Lean model enumerates the same tree; compared: number of schedules, deadlocks, set of final "
-        "outcomes (releases per reference counter, counter values). Non-trivial = scenario with at least 2 threads that each perform "
-        "an atomic operation on a shared object")
+        "outcomes (releases per reference counter, counter values). `nest` cases: a DAG of up to 8 shared objects that CONTAIN handles "
+        "(Array<Node> blocks whose elements have a member Array<Node>, maps of maps, Shared<Node> / SmartObject members), 1-3 "
+        "program variables and up to 8 assignments between handle places reached by paths (mostly with the source stored inside "
+        "what the destination releases: a = a[0].kids) and scope exits; compared: which blocks were released (release events at "
+        "each block's counter), under ASan; judged independently by a tracing oracle (released iff unreachable). Non-trivial = "
+        "scenario with at least 2 threads that each perform an atomic operation on a shared object, or a nest case with an assignment")
 TRUSTED = ["tools/props/c12.py translate(): g++ -E of include/asl/atomic.h (which primitive atomicInc/atomicDec compile to, guard off "
            "and guard on must agree), and atomic-step shapes of every handle operation recorded by harness/c12.cpp `rec` on the "
            "instrumented library -> lean/Gen/ShapesGen.lean",
@@ -167,6 +171,12 @@ def gen(rng, tier):
             if kind == "hashmap":
                 ps = [rprog(rng, OPS_H, 2 if nth == 2 else 1) for _ in range(nth)]
         cases.append(["scen %s %d %s" % (kind, budget, "|".join(ps))])
+    # handles stored inside the shared objects: assignments whose source lives in what the destination releases
+    for k in KINDS:
+        for f in NEST_FIXED:
+            cases.append(["nest %s %s" % (k, f)])
+    for i in range(60 if tier == "quick" else 1500):
+        cases.append([gen_nest(rng, rng.choice(KINDS), rng.choice([2, 3, 4, 5, 6, 8]), rng.choice([1, 2, 3, 5, 8]))])
     # free-running contention (no scheduler): 16 threads
     it = 20000 if tier == "quick" else 600000
     for k in ["count", "array", "map", "hashmap", "shared", "smart"]:
@@ -178,10 +188,166 @@ def gen(rng, tier):
     return cases
 
 
+# ---- handles stored inside shared objects (nest): python mini-heap used to generate valid, cycle-free programs and as an
+# independent oracle (a block is released iff no program variable reaches it: tracing semantics, equal to counting on DAGs)
+class MiniHeap:
+    def __init__(self, descr, roots):
+        self.inner = [list(x) for x in descr]
+        self.roots = list(roots)
+
+    def resolve(self, path):
+        r, es = path
+        if r >= len(self.roots):
+            return None
+        loc = ("r", r)
+        for e in es:
+            t = self.read(loc)
+            if e >= len(self.inner[t]):
+                return None
+            loc = (t, e)
+        return loc
+
+    def read(self, loc):
+        return self.roots[loc[1]] if loc[0] == "r" else self.inner[loc[0]][loc[1]]
+
+    def reach(self, start):
+        seen = set()
+        todo = list(start)
+        while todo:
+            b = todo.pop()
+            if b in seen:
+                continue
+            seen.add(b)
+            todo.extend(self.inner[b])
+        return seen
+
+    def live(self):
+        return self.reach(self.roots)
+
+    def assign(self, dst, src):
+        """False if skipped (unresolvable) or refused (would create a cycle)"""
+        d, s = self.resolve(dst), self.resolve(src)
+        if d is None or s is None:
+            return False
+        t = self.read(s)
+        if d[0] != "r" and d[0] in self.reach([t]):
+            return None
+        if d[0] == "r":
+            self.roots[d[1]] = t
+        else:
+            self.inner[d[0]][d[1]] = t
+        # blocks that became unreachable are gone: handles stored in them no longer exist
+        return True
+
+    def drop(self):
+        if self.roots:
+            self.roots.pop()
+
+    def frees(self):
+        lv = self.live()
+        return ",".join("0" if b in lv else "1" for b in range(len(self.inner)))
+
+
+def parse_nest(line):
+    t = line.split()
+    descr = [[] if b == "-" else [int(x) for x in b.split(",")] for b in t[2].split("/")]
+    roots = [] if t[3] == "-" else [int(x) for x in t[3].split(",")]
+    ops = []
+    if t[4] != "-":
+        for o in t[4].split(";"):
+            if o == "x":
+                ops.append("x")
+            else:
+                a, b = o.split("=")
+                pp = lambda q: (int(q.split(".")[0][1:]), [int(e) for e in q.split(".")[1:]])
+                ops.append((pp(a), pp(b)))
+    return t[1], descr, roots, ops
+
+
+def nest_reference(line):
+    try:
+        _, descr, roots, ops = parse_nest(line)
+    except (ValueError, IndexError):
+        return None
+    for b, inn in enumerate(descr):
+        if any(x <= b or x >= len(descr) for x in inn):
+            return None
+    h = MiniHeap(descr, roots)
+    for o in ops:
+        if o == "x":
+            h.drop()
+        elif h.assign(o[0], o[1]) is None:
+            return None      # a cycle: counting and tracing differ, no verdict from this oracle
+    return "frees=%s end=%s" % (h.frees(), ",".join("1" for _ in descr))
+
+
+def reference(line):
+    if line.startswith("nest "):
+        return nest_reference(line)
+    return None
+
+
+def rpath(rng, h):
+    r = rng.randrange(len(h.roots)) if h.roots else 0
+    es = []
+    loc = ("r", r)
+    while h.roots and rng.random() < 0.6:
+        t = h.read(loc)
+        if not h.inner[t]:
+            break
+        e = rng.randrange(len(h.inner[t]))
+        es.append(e)
+        loc = (t, e)
+    return (r, es)
+
+
+def pstr(p):
+    return "r%d" % p[0] + "".join(".%d" % e for e in p[1])
+
+
+def gen_nest(rng, kind, nblocks, nops):
+    descr = []
+    for b in range(nblocks):
+        hi = list(range(b + 1, nblocks))
+        k = rng.randrange(0, min(4, len(hi)) + 1) if hi else 0
+        descr.append([rng.choice(hi) for _ in range(k)])
+    nroots = rng.choice([1, 1, 2, 3])
+    roots = [rng.choice([0, 0, rng.randrange(nblocks)]) for _ in range(nroots)]
+    h = MiniHeap(descr, roots)
+    ops = []
+    for _ in range(nops):
+        if not h.roots:
+            break
+        if rng.random() < 0.12:
+            h.drop()
+            ops.append("x")
+            continue
+        for _try in range(6):
+            dst = rpath(rng, h)
+            # most of the time the source is below the destination: the source handle lives in what the destination releases
+            src = (dst[0], dst[1] + rpath(rng, h)[1]) if rng.random() < 0.5 else rpath(rng, h)
+            if rng.random() < 0.1:
+                src = (src[0], src[1] + [rng.randrange(9)])      # index beyond the block: the operation is skipped
+            g = MiniHeap(h.inner, h.roots)
+            r = g.assign(dst, src)
+            if r is None:
+                continue
+            h.assign(dst, src)
+            ops.append(pstr(dst) + "=" + pstr(src))
+            break
+    return "nest %s %s %s %s" % (kind, "/".join(",".join(map(str, b)) or "-" for b in descr), ",".join(map(str, roots)) or "-", ";".join(ops) or "-")
+
+
+NEST_FIXED = ["1/- 0 r0=r0.0", "1,2/2/- 0,1 r0=r0.0.0;x", "1/2/3/- 0 r0=r0.0;r0=r0.0;r0=r0.0", "1,2,3/-/-/- 0 r0=r0.2", "1,1/2/- 0,0 r0=r0.1;r1=r1.0.0",
+              "1/2/- 0 r0.0=r0.0.0", "1,2/3/3/- 0 r0.0=r0.1;r0=r0.0", "1/- 0,0 r0=r0.0;r1=r1.0", "1/- 0 r0=r0;r0=r0.0;r0=r0.5", "1,2/-/- 0 x;x"]
+
+
 def nontrivial(case):
     t = case[0].split()
     if t[0] == "stress":
         return True
+    if t[0] == "nest":
+        return "=" in t[4]
     progs = t[3].split("|")
     return len(progs) >= 2
 
@@ -193,6 +359,9 @@ def distribution(cases):
         t = c[0].split()
         if t[0] == "stress":
             d["stress"] = d.get("stress", 0) + 1
+            continue
+        if t[0] == "nest":
+            d["nest-" + t[1]] = d.get("nest-" + t[1], 0) + 1
             continue
         d[t[1]] = d.get(t[1], 0) + 1
         k = len(t[3].split("|"))
@@ -220,7 +389,15 @@ LEVEL_TEXT = ("Proved in Lean 4 for any number of threads and any finite program
               "payload) are replayed on the real library under a deterministic scheduler and compared with the model's enumeration; "
               "16-thread free-running contention runs (handles, counters, converting Shared<Der> -> Shared<Base> copies, SmartObject "
               "clones, Atomic<T> copy assignment next to a busy source with a deadlock watchdog) are repeated under ThreadSanitizer "
-              "(harness built at -O0 there, so that same-value stores are not optimised away).")
+              "(harness built at -O0 there, so that same-value stores are not optimised away). Handles stored INSIDE shared objects "
+              "(AslModel/RcNest.lean: objects own handles, release cascades through them): for every heap satisfying count = number of "
+              "handles, and any two handle places in live storage — the source possibly inside the object the destination releases — "
+              "the acquire-first assignment touches no released storage and keeps the invariant (nested_assign_safe), a variable "
+              "assigned to then holds the live source object (nested_assign_result), every heap the harness can build satisfies the "
+              "invariant and every program of assignments and scope exits on it stays safe (nested_programs_safe); the release-first "
+              "order the containers had before their repair reads released storage on a = a[0].kids (release_first_unsafe); that every "
+              "handle type's assignment increments before it decrements or releases is a regenerated obligation "
+              "(assignment_acquires_first, from the recorded shapes).")
 LEVEL_NOTE = ("Trusted: atomicity of __sync builtins, mutual exclusion of pthread mutexes, sequential consistency at hook points, the "
               "scheduler harness. There is no hook point between atomicDec and the test of its result, so a decrement whose result is "
               "re-read instead of tested on return is invisible to the scheduler and rests on the free-running runs (ASan, TSan, "
